@@ -230,35 +230,40 @@ def playback(dst, harness, features=None, no_default=False, timeout=900):
     except subprocess.TimeoutExpired:
         return None
     out = r.stdout + r.stderr
-    # locate the generated test in the harness files
-    name = None
-    src_txt = None
+    # locate the generated tests in the harness files (Kani emits one per failed check and per satisfied cover)
     hdir = os.path.join(dst, 'vk_harness')
+    cands = []
     for f in sorted(os.listdir(hdir)):
         t = open(os.path.join(hdir, f)).read()
-        m = re.search(r'fn (kani_concrete_playback_%s_\w+)\(\)' % re.escape(harness.split('::')[-1]), t)
-        if m:
-            name = m.group(1)
+        for m in re.finditer(r'fn (kani_concrete_playback_%s_\w+)\(\)' % re.escape(harness.split('::')[-1]), t):
             i = t.rfind('#[test]', 0, m.start())
             j = t.find('\n}', m.end())
-            src_txt = t[i:j + 2]
-            break
-    if not name:
+            cands.append((m.group(1), t[i:j + 2]))
+    if not cands:
         return {'test_name': None, 'kani_out_tail': out[-3000:]}
-    cmd2 = ['cargo', 'kani', 'playback', '-p', 'mipidsi', '-Z', 'concrete-playback']
-    if no_default:
-        cmd2 += ['--no-default-features']
-    if features:
-        cmd2 += ['--features', features]
-    cmd2 += ['--', name]
-    try:
-        r2 = subprocess.run(cmd2, cwd=dst, env=env, capture_output=True, text=True, timeout=timeout)
-        log = r2.stdout + r2.stderr
-        failed = r2.returncode != 0 and ('panicked' in log or 'FAILED' in log)
-    except subprocess.TimeoutExpired:
-        log, failed = 'native replay timed out (non-termination is itself the finding if the harness is about termination)', True
-    return {'test_name': name, 'test_src': src_txt, 'native_log': log[-6000:], 'native_failed': failed,
-            'cmd': ' '.join(cmd), 'replay_cmd': ' '.join(cmd2)}
+    best = None
+    for name, src_txt in cands[:6]:
+        cmd2 = ['cargo', 'kani', 'playback', '-p', 'mipidsi', '-Z', 'concrete-playback']
+        if no_default:
+            cmd2 += ['--no-default-features']
+        if features:
+            cmd2 += ['--features', features]
+        cmd2 += ['--', name]
+        try:
+            r2 = subprocess.run(cmd2, cwd=dst, env=env, capture_output=True, text=True, timeout=timeout)
+            full = r2.stdout + r2.stderr
+            verdict = re.search(r'test \S*%s \.\.\. (ok|FAILED)' % re.escape(name), r2.stdout)
+            failed = bool(verdict and verdict.group(1) == 'FAILED') or (verdict is None and 'panicked at' in full and r2.returncode != 0)
+            log = (r2.stdout[-2500:] + '\n--- stderr ---\n' + r2.stderr[-1500:])
+        except subprocess.TimeoutExpired:
+            log, failed = 'native replay timed out (non-termination is itself the finding if the harness is about termination)', True
+        rec = {'test_name': name, 'test_src': src_txt, 'native_log': log, 'native_failed': failed,
+               'cmd': ' '.join(cmd), 'replay_cmd': ' '.join(cmd2)}
+        if best is None:
+            best = rec
+        if failed:
+            return rec
+    return best
 
 
 def cleanup(d):
